@@ -469,6 +469,14 @@ func (d *drv) fsx() {
 	d.cur = "fc"
 	d.release("fc", "go")
 	e, takes, _ := d.settle("fc")
+	if e.kind == "park" && e.point == "find" {
+		// candidate repair F31b: maybeDelete looks for new tasks once more before it deletes; the look-up and the
+		// deletion are one step of the model
+		d.release("fc", "go")
+		var more []took
+		e, more, _ = d.settle("fc")
+		takes = append(takes, more...)
+	}
 	d.fcAfter(e)
 	d.emit("FSx", takes, "code", e.code)
 }
